@@ -33,7 +33,7 @@ import (
 var (
 	reQuoted = regexp.MustCompile(`"[^"]*"|'[^']*'`)
 	reDigits = regexp.MustCompile(`[0-9]+`)
-	reIDs    = regexp.MustCompile(`s[0-9]{4}[joc][0-9]x?`)
+	reIDs    = regexp.MustCompile(`s[0-9]{4}[joc][0-9a-z]t?x?`)
 	rePos    = regexp.MustCompile(`^[^ ]*\.go:[0-9]+:[0-9]+: `)
 )
 
@@ -57,6 +57,7 @@ type conv struct {
 	u     *bldrun.LUnit
 	k     int
 	doc   string
+	label string // class of the value (scenario documents only); part of the kind
 	input any // re-encoding of the decoded document: the converter's input
 	expr  string
 	// stage 2
@@ -251,6 +252,9 @@ func main() {
 		if cv.c.Variant != "" {
 			kind += " [" + cv.c.Variant + "]"
 		}
+		if cv.label != "" {
+			kind += " {value: " + cv.label + "}"
+		}
 		c := cv.c
 		r.Fail(vx.Failure{
 			Kind: kind, Witness: c.Witness(), Size: c.Size(), Parents: c.Parents(),
@@ -263,6 +267,7 @@ func main() {
 	// ---- stage 1: run the converters -------------------------------------------------------
 	var convs []*conv
 	defaults := map[string]any{} // unit id -> default object of the root builder
+	defaultErr := map[string]string{} // unit id -> error of Build() on the untouched root builder
 	judged := 0
 	for _, c := range prep.Cases {
 		switch {
@@ -321,11 +326,13 @@ func main() {
 		def := d.Built
 		if d.Err != "" || !d.HasJSON {
 			def = u.DefaultOf("Root")
+			defaultErr[c.Unit.ID] = d.Err
 		}
 		defaults[c.Unit.ID] = def
-		vals := prep.Validators[c.Index]
+		vals := c.Validators
 		n := 0
-		for _, doc := range bldrun.DocsFor(c) {
+		for _, dd := range bldrun.DocsFor(c) {
+			doc := dd.Text
 			if n >= maxDocs {
 				break
 			}
@@ -333,7 +340,7 @@ func main() {
 				continue
 			}
 			n++
-			cv := &conv{c: c, u: u, k: n, doc: doc}
+			cv := &conv{c: c, u: u, k: n, doc: doc, label: dd.Label}
 			resp, died := prep.Driver.Do(map[string]any{"op": "conv", "key": c.Unit.ID + ".Root", "type": c.Unit.ID + ".Root", "doc": doc})
 			trans++
 			switch {
@@ -488,6 +495,11 @@ func main() {
 				note("skipped: "+fmt.Sprint(resp["problem"]), c.Witness()+" "+cv.doc)
 				continue
 			}
+			if e, ok := resp["err"].(string); ok && e == defaultErr[id] {
+				// the untouched builder already fails this way (a default violates a constraint): not the converter's doing
+				note("lenient: rebuilt builder fails exactly like the untouched builder", c.Witness()+" "+cv.doc+": "+e)
+				continue
+			}
 			if e, ok := resp["err"].(string); ok {
 				fail(cv, "rebuilt builder fails to build", e, "", fmt.Sprintf("%q: Build() returns %q although the value came from a document the schema accepts", cv.expr, e))
 				outcomes["rebuilt-build-error"] = true
@@ -598,6 +610,10 @@ func main() {
 							what = "array elements differ"
 						}
 					}
+				}
+				if cv.label != "" {
+					// designed scenario values: the member that differs is part of the failure's identity
+					what += " at " + strings.TrimPrefix(path, ".")
 				}
 				fail(cv, "rebuilt object differs", what, class,
 					fmt.Sprintf("at %s: converter input %s, rebuilt %s (default %s); whole input %s, rebuilt %s; expression %q", strings.TrimPrefix(path, "."), bldrun.Text(v), bldrun.Text(rb), bldrun.Text(d), bldrun.Text(cv.input), js, cv.expr))
